@@ -899,7 +899,7 @@ def normalise_names(trees: Dict[str, ast.Module], anchors: Set[str]) -> List[str
         return notes
     for t in trees.values():
         for n in ast.walk(t):
-            if isinstance(n, _FUNC) and n.name in ren:
+            if isinstance(n, _FUNC + (ast.ClassDef,)) and n.name in ren:
                 n.name = ren[n.name]
             elif isinstance(n, ast.Name) and n.id in ren:
                 n.id = ren[n.id]
@@ -1041,6 +1041,10 @@ def inline_helpers(trees: Dict[str, ast.Module], anchors: Optional[Set[str]] = N
                     for s in st.body:
                         if isinstance(s, _FUNC):
                             n += _inline_in_function(s, helpers, st.name, new_helpers, used)
+                            # closures and the methods of classes defined inside the method
+                            for inner in ast.walk(s):
+                                if isinstance(inner, _FUNC) and inner is not s:
+                                    n += _inline_in_function(inner, helpers, None, new_helpers, used)
             if n == 0:
                 break
         # global names a helper from another module mentions must be visible where it was expanded: the
